@@ -22,12 +22,14 @@ Reject(e, item) ==
                              items |-> <<item @@ [ver |-> cfg.ver, multicont |-> MultiCont(cfg.blocks), deep |-> Deep(cfg.blocks)]>>])>>)
   /\ bad' = bad + 1 /\ UNCHANGED <<cfg, stats>>
 
+Fam(e) == IF "family" \in DOMAIN e THEN e.family ELSE "group-dag"
 Step(e) ==
-  IF e.op = "dag"          \* the counterexample of GroupWalk ("inprogress": 2^depth loads for depth groups) on a real file
+  IF e.op = "dag"          \* the counterexample of GroupWalk ("inprogress": 2^depth loads for depth groups) on a real file: hard-linked groups, and a chunk index whose nodes are shared
   THEN IF e.res \in {"ok", "err"}
        THEN /\ stats' = [stats EXCEPT !.answered = @ + 1] /\ UNCHANGED <<cfg, bad>>
-       ELSE /\ PrintT(<<"BAD", ToJson([case |-> e.case, at |-> l, cfg |-> [family |-> "group-dag", sb |-> e.sb, depth |-> e.depth],
-                                       items |-> <<[diag |-> IF e.res = "panic" THEN "panic" ELSE "hang", family |-> "group-dag", msg |-> e.msg]>>])>>)
+       ELSE /\ PrintT(<<"BAD", ToJson([case |-> e.case, at |-> l, cfg |-> [family |-> Fam(e), sb |-> e.sb, depth |-> e.depth],
+                                       items |-> <<[diag |-> IF e.res = "panic" THEN "panic" ELSE IF e.res = "hang" THEN "hang" ELSE "not-run",
+                                                    family |-> Fam(e), msg |-> e.msg]>>])>>)
             /\ bad' = bad + 1 /\ UNCHANGED <<cfg, stats>>
   ELSE IF e.op # "hdr" THEN UNCHANGED <<cfg, bad, stats>>
   ELSE LET h == cfg.blocks
